@@ -3,11 +3,13 @@
    range read path (cselector.go updatePoss / checkPosOrAdvance / getPosForward, jiterator.go,
    pkg/cursor/cursor.go open bounds, fiterator.go), for ONE partition.
 
-   A `variant` selects between the code as it was before the three C02 repairs and the code as it is:
+   A `variant` selects between the code as it was before the four C02 repairs and the code as it is:
      fix_lb   : chkSelector.updatePoss asks the index for t1-1 (guarding MinInt64) instead of t1
      fix_zero : iwrapper / rebuildIndexInt do not treat timestamp 0 as "unset"
      fix_open : an omitted lower RANGE bound means MinInt64 instead of 0
-   All three repairs are in /repo, so `impl_variant`, the one the correspondence check compares the
+     fix_partial : an info that cindex.onWrite creates for a chunk that already had records is marked HullPartial
+                (reported with an unlimited time range until the rebuild has scanned the chunk; CIndex.k_partial)
+   All four repairs are in /repo, so `impl_variant`, the one the correspondence check compares the
    implementation with and the theorems of props/C02.v are about, is `fixed_variant`. The variants with a
    flag switched off describe the code before the corresponding repair; they are kept for the theorems
    that say what each repair bought (props/C02.v, `..._without_..._repair_refuted`).
@@ -15,10 +17,10 @@
 From LR Require Import lib.Base model.TmTree model.CIndex.
 Open Scope Z_scope.
 
-Record variant := mkvariant { fix_lb : bool; fix_zero : bool; fix_open : bool }.
+Record variant := mkvariant { fix_lb : bool; fix_zero : bool; fix_open : bool; fix_partial : bool }.
 (* /repo before the repairs C02-lower-bound, C02-zero-unset, C02-open-lower-bound *)
-Definition unrepaired_variant : variant := mkvariant false false false.
-Definition fixed_variant : variant := mkvariant true true true.
+Definition unrepaired_variant : variant := mkvariant false false false false.
+Definition fixed_variant : variant := mkvariant true true true true.
 (* >>> the variant the implementation in /repo is <<< *)
 Definition impl_variant : variant := fixed_variant.
 
@@ -66,7 +68,7 @@ Fixpoint run_segs (v : variant) (st : pstate) (iw : iw_state) (segs : list seg) 
           let iw' := fold_left (iw_get (fix_zero v)) (sg_ts sg) iw in
           let first := Z.of_nat (length (chunk_data (p_chunks st) (sg_cid sg))) in
           let lastr := first + Z.of_nat (length (sg_ts sg)) - 1 in
-          let '(ci', res) := ci_on_write (sg_skip sg) (p_ci st) first lastr (sg_cid sg) (iw_min iw') (iw_max iw') in
+          let '(ci', res) := ci_on_write (fix_partial v) (sg_skip sg) (p_ci st) first lastr (sg_cid sg) (iw_min iw') (iw_max iw') in
           let q' := match res with WCorrupted => enqueue (p_queue st) (sg_cid sg) | WOk => p_queue st end in
           run_segs v (mkp (append_data (p_chunks st) (sg_cid sg) (sg_ts sg)) ci' q') iw' tl
       end
@@ -120,7 +122,7 @@ Fixpoint read_chunks (v : variant) (ci : cindex) (t1 t2 : Z) (infos : cindex) (c
   : list ev * list Z :=
   match infos, cks with
   | k :: itl, (cid, data) :: ctl =>
-      let '(st, rb) := update_poss v ci t1 t2 (k_id k) (k_min k) (k_max k) (Z.of_nat (length data)) in
+      let '(st, rb) := update_poss v ci t1 t2 (k_id k) (k_rmin k) (k_rmax k) (Z.of_nat (length data)) in
       let q' := if rb then enqueue q cid else q in
       let '(evs, q'') := read_chunks v ci t1 t2 itl ctl q' in
       (tag_chunk cid (filter (fun pt => fit_in_range t1 t2 (snd pt)) (jit_chunk st data)) ++ evs, q'')
@@ -231,7 +233,7 @@ Fixpoint sel_statuses (v : variant) (ci : cindex) (t1 t2 : Z) (infos : cindex) (
   : sel_cache * list Z :=
   match infos, cks with
   | k :: itl, (cid, data) :: ctl =>
-      let '(s, rb) := update_poss v ci t1 t2 (k_id k) (k_min k) (k_max k) (Z.of_nat (length data)) in
+      let '(s, rb) := update_poss v ci t1 t2 (k_id k) (k_rmin k) (k_rmax k) (Z.of_nat (length data)) in
       let q' := if rb then enqueue q cid else q in
       let '(sel, q'') := sel_statuses v ci t1 t2 itl ctl q' in
       ((k_id k, s) :: sel, q'')
@@ -253,7 +255,7 @@ Definition get_chunk_status (lazy : bool) (v : variant) (t1 t2 : Z) (sel : sel_c
       else if lazy && (s_max s =? max_uint32) then (sel_set sel cid (mkst (s_min s) (s_max s) cnt), st)
       else match find_chunk (p_ci st) cid with                 (* GetRecordsInfo *)
            | Some k =>
-               let '(s', rb) := update_poss v (p_ci st) t1 t2 cid (k_min k) (k_max k) cnt in
+               let '(s', rb) := update_poss v (p_ci st) t1 t2 cid (k_rmin k) (k_rmax k) cnt in
                (sel_set sel cid s', mkp (p_chunks st) (p_ci st) (if rb then enqueue (p_queue st) cid else p_queue st))
            | None => (sel_set sel cid (mkst (s_min s) (s_max s) cnt), st)
            end
